@@ -26,6 +26,8 @@ def frame(n):
         "f": [["b", "c", "a"][k % 3] for k in i], "g": [["g2", "g1"][(k // 2) % 2] for k in i], "kk": [[30, 10, 20][(k + k // 3) % 3] for k in i],
         "s": [(k * 3) % 5 for k in i], "n": [5 + (k % 3) for k in i], "s8": np.array([(k * 3) % 5 for k in i], dtype="int8"),
         "yn": [["café", "Zürich", "x y"][(k + k // 5) % 3] for k in i],
+        "yd": [["1", "2", "10"][(k + k // 2) % 3] for k in i],  # level names made of digits only
+        "ybig": np.array([2 ** 53 + 1 + 2 * int(k) for k in i], dtype="int64"),  # integers a float64 cannot hold exactly
         "ys": [["mid", "low", "high"][(k + k // 4) % 3] for k in i],
         "yq": [["level one", "b two", "a-3"][(2 * k + k // 3) % 3] for k in i],
     })
@@ -54,6 +56,9 @@ RESP += [
     {"text": "prop(s, n)", "kind": "prop", "trials": "n"}, {"text": "p(s, n)", "kind": "prop", "trials": "n"}, {"text": "proportion(s, 9)", "kind": "prop", "trials": 9},
     {"text": "prop(s, 4)", "kind": "prop", "trials": 4},
     {"text": "prop(s8, 300)", "kind": "prop", "trials": 300, "succ": "s8"}, {"text": "prop(s8, n)", "kind": "prop", "trials": "n", "succ": "s8"},
+    {"text": "yd", "kind": "cat", "col": "yd", "order": "sorted"}, {"text": "yd['1']", "kind": "level", "col": "yd", "level": "1"},
+    {"text": 'yd["10"]', "kind": "level", "col": "yd", "level": "10"}, {"text": "yd['2']", "kind": "level", "col": "yd", "level": "2"},
+    {"text": "ybig", "kind": "bigint"},
     {"text": "yn", "kind": "cat", "col": "yn", "order": "sorted"}, {"text": "yn['café']", "kind": "level", "col": "yn", "level": "café"},
     {"text": 'yn["Zürich"]', "kind": "level", "col": "yn", "level": "Zürich"}, {"text": "yn['x y']", "kind": "level", "col": "yn", "level": "x y"},
 ]
@@ -148,7 +153,11 @@ def check_case(case, acc):
             continue
         M = np.asarray(R.design_matrix, dtype=float)
         k = r["kind"]
-        if k == "num":
+        if k == "bigint":
+            got = [int(v) for v in np.asarray(R.design_matrix).reshape(-1).tolist()] if np.asarray(R.design_matrix).dtype.kind in "iu" else np.asarray(R.design_matrix).reshape(-1).tolist()
+            if got != [int(v) for v in df["ybig"].tolist()]:
+                problems.append(("numeric-unchanged", f"{f!r}: an int64 response is not returned unchanged (first value {got[0]!r} vs {int(df['ybig'].iloc[0])})"))
+        elif k == "num":
             if M.shape != (len(df),) and M.shape != (len(df), 1) or not np.array_equal(M.reshape(-1), df["y"].to_numpy()) or R.kind != "numeric":
                 problems.append(("numeric-unchanged", f"{f!r}: numeric response is not the column unchanged (kind {R.kind})"))
         elif k in ("call-log", "call-2y"):
